@@ -21,6 +21,7 @@ type vnOp struct {
 	Kind string `json:"kind"` // write | reply | pause | expire
 	DNS  bool   `json:"dns"`
 	Ms   int    `json:"ms"`
+	Fail bool   `json:"fail"` // write: the outbound socket refuses the send
 }
 
 type vnReq struct {
@@ -68,6 +69,7 @@ type vnFakeConn struct {
 	curOp    int
 	closed   bool
 	expire   bool
+	failNext bool
 }
 
 type vnPkt struct {
@@ -104,7 +106,16 @@ func (c *vnFakeConn) ReadFrom(p []byte) (int, net.Addr, error) {
 	}
 }
 
-func (c *vnFakeConn) WriteTo(p []byte, addr net.Addr) (int, error) { return len(p), nil }
+func (c *vnFakeConn) WriteTo(p []byte, addr net.Addr) (int, error) {
+	c.mu.Lock()
+	fail := c.failNext
+	c.failNext = false
+	c.mu.Unlock()
+	if fail {
+		return 0, errors.New("sendto: network is unreachable")
+	}
+	return len(p), nil
+}
 func (c *vnFakeConn) Close() error {
 	c.mu.Lock()
 	c.closed = true
@@ -190,6 +201,9 @@ func vnRun(req vnReq) (resp vnResp) {
 			if op.DNS {
 				to = dnsAddr
 			}
+			fc.mu.Lock()
+			fc.failNext = op.Fail
+			fc.mu.Unlock()
 			entry.WriteTo([]byte("payload"), to)
 		case "reply":
 			from := net.Addr(webAddr)
